@@ -17,6 +17,10 @@ _solo_cache = {}
 
 
 def item_constraints(rso, z, items):
+    if 'xb' in items:
+        # a set made ONLY of exponential-cone constraints (no bound, row or norm next to them):
+        # exp(+-z_i) <= 20 is the box |z_i| <= ln 20
+        return [rso.exp(z[0]) <= 20, rso.exp(-z[0]) <= 20, rso.exp(z[1]) <= 20, rso.exp(-1.0 * z[1]) <= 20]
     cons = [rso.norm(z, 'inf') <= 4]
     for it in items:
         if it == 'lin':
@@ -222,7 +226,7 @@ def _replay(job, phase):
                 items = [] if d == ['noset'] else d
                 want = solo_value(k, items)
                 total += want
-                tol = (3e-3 if 'ex' in items and act == 'soc_solve' else 5e-4 if ('ex' in items or 'p3' in items) else TOL) * (1 + abs(want))
+                tol = (3e-3 if ('ex' in items or 'xb' in items) and act == 'soc_solve' else 5e-4 if ('ex' in items or 'p3' in items or 'xb' in items) else TOL) * (1 + abs(want))
                 got = tv[k - 1]
                 if abs(got - want) > 10 * tol:
                     kind = 'set-too-small' if got < want else 'set-too-large'
